@@ -216,6 +216,21 @@ example : sar (fun x => x) 4 8 10 (.fin 5) = 8 ∧ sar (fun x => x) 4 8 10 .pinf
     ∧ sar (fun x => x) 4 8 10 (.fin (-1)) = 0 := by decide +kernel
 example : sarNoise (fun x => x) 4 8 10 [0, 0, 0, 0] 7 = some 11 := by decide +kernel
 
+/-! ## C'. conversion histories -/
+
+/-- a conversion is a function of the signal frame and the converter settings only: whatever an earlier
+conversion (other resolution, other type, other converter) left in the image bucket, the stored image —
+codes **and element type** — is the one a fresh detector would get -/
+theorem simpleAdc_store_history_independent (prev : Option Image) (rnd : ℚ → ℚ) (bits w : ℕ) (vmin vmax : ℚ)
+    (frame : List XV) :
+    storeSimple prev rnd bits w vmin vmax frame = storeSimple none rnd bits w vmin vmax frame ∧
+      (storeSimple prev rnd bits w vmin vmax frame).width = w := ⟨rfl, rfl⟩
+
+theorem sar_store_history_independent (prev : Option Image) (rnd : ℚ → ℚ) (bits w : ℕ) (vmax : ℚ)
+    (frame : List XV) :
+    storeSar prev rnd bits w vmax frame = storeSar none rnd bits w vmax frame ∧
+      (storeSar prev rnd bits w vmax frame).width = w := ⟨rfl, rfl⟩
+
 /-! ## D. binary64 -/
 
 /-- round-to-nearest-even to 53 bits with gradual underflow is a rounding in the sense of parts B, C -/
